@@ -1,6 +1,8 @@
 #!/bin/bash
-# run every claimed check (tier from $TIER, default quick) on the current /repo tree; prints one line per check
+# run claimed checks (all, or those given as arguments) on the current /repo tree; tier from $TIER (default quick)
 cd /verif
-for c in $(python3 -c "import json; print(' '.join(x['property_id'] for x in json.load(open('MANIFEST.json'))['checks']))"); do
+LIST="$@"
+[ -z "$LIST" ] && LIST=$(python3 -c "import json; print(' '.join(x['property_id'] for x in json.load(open('MANIFEST.json'))['checks']))")
+for c in $LIST; do
   ./check $c --tier ${TIER:-quick} 2>/dev/null | grep -E "^(VIOLATION|KNOWN-FINDING|OK|FAIL)" | head -5
 done
